@@ -22,12 +22,18 @@ TRUSTED = [
     'tuples, Index/name paths, SELF/SKIP/Literal); masks, numpy leaves and DataFrames are outside this model (C18/C02)',
     'user callables are arbitrary functions with private state in the theorems and a fixed named library in the '
     'correspondence (Model/PipeLib.lean mirrors harness/lib_pipe.py make_fn)',
+    'heap-aware part (Model/PipeHeap.lean on the C18 heap): covers the output routing _get_outputs with the function outputs given as '
+    'heap objects; tied per record by the identity pattern of the real output objects vs the driver model `pipeheap` (sink/assign '
+    'chains); its agreement with the functional model Pipe.getOutputs is checked per case by the driver, not proved',
     'garbage collection: a Sink generator that is dropped un-exhausted runs its finally when CPython frees it '
     '(reference counting); the harness drops the iterator and collects before it reads `closed`',
 ]
 ASSUMPTIONS = ['records are ints, tuples, lists and str-keyed (nested) dicts of ints',
-               'num_threads=2 cases are compared as multisets and only when no error reaches the caller']
-RULE = ('corpus; a systematic table (every operator kind x key shape); random typed chains of 1..6 operators from the '
+               'num_threads>=2 cases are compared as multisets and only when no error reaches the caller; num_threads=1 in order']
+RULE = ('corpus; a systematic table (every operator kind x key shape); arm nested-assign (several assign keys, one a nested '
+        'path into an existing dict/list/tuple of the record, dict-form keys with such record keys; alone / behind a sink / filter / '
+        'assign; the same record objects twice); arm builder (17 key-producing operator forms x none|filter|sink x 16 assign key forms, '
+        'constant functions); random typed chains of 1..6 operators from the '
         'grammar select|apply|assign|filter|batch|sink x key shapes (bare, Key path, nested path, Index, tuple, dict/kwargs, '
         'SELF, SKIP, Literal, dict output keys) x the named callable library x batch_size/fn_batch_size x streams of 0..8 '
         'records of 5 shapes x ignore_error x num_threads in {0,2}; ~15% "wild" chains built without looking at the records '
@@ -774,9 +780,6 @@ def assign_misaligned(case):
 def finding(case, what):
   if what.startswith('[sink] a sink was written after') and case.get('threads'):
     return 'F-C08-sink-threads'
-  if what.startswith('[over-reject]') and any(
-      sp['op'] == 'assign' and sp['keys'] == {'one': {'i': 0}} for sp in case['specs']):
-    return 'F-C08-index0'
   if assign_misaligned(case):
     return 'F-C08-assign-rebatch'
   if fnbatch_unreadable(case):
